@@ -49,6 +49,18 @@ THEOREMS = [
     "C05_candidate_text",
     "C05_float_text",
     "C05_float_as_int",
+    "spec_reads_spelling",
+    "fortran_reads_spelling",
+    "readers_agree",
+    "fortran_reads_candidate",
+    "C05_float_full",
+    "C05_token_reading",
+    "C05_token_reading_G",
+    "C05_changed_float",
+    "C05_end_to_end",
+    "C05_end_to_end_new",
+    "C05_changed_float_signed",
+    "C05_default_node",
     "C05_int_value",
     "C05_int_branch",
     "C05_trunc_ofInt",
@@ -946,6 +958,27 @@ def run(chk):
             chk.disagreements_checked += 1
             chk.broken_obligation("correspondence", name, detail, case)
     chk.units["U-read"] = {"words": len(rd)}
+
+    # ------------------------------------------------------------------ U-repr (samples the named assumption ReprExact)
+    rng = chk.rng("repr")
+    rp = []
+    for i in range(chk.pick(2000, 50000)):
+        v = nf.gen_value(rng)
+        if math.isfinite(v):
+            rp.append({"unit": "read", "word": str(v), "v": nf.num(v)})
+    rp_model = batch_par(drv, [{"unit": "read", "word": c["word"]} for c in rp])
+    for case, rm in zip(rp, rp_model or []):
+        chk.traces_validated += 1
+        y = nf.read_fortran(case["word"])  # str(v) must be a number of the Real rule ...
+        spec = nf.unrat(rm["spec"])
+        ff = nf.unrat(rm["fortran_float"])
+        v = nf.unnum(case["v"])
+        # ... that both readers of the model read alike, and whose nearest double is v (CPython's repr guarantee)
+        if y is None or spec != y or ff != y or nf.to_float(y) != v:
+            chk.disagreements_checked += 1
+            chk.broken_obligation("correspondence", "U-repr (ReprExact: str(v) is a decimal literal whose nearest double is v)",
+                                  {"str": case["word"], "independent": str(y), "spec": rm["spec"], "fortran_float": rm["fortran_float"]}, case)
+    chk.units["U-repr"] = {"values": len(rp)}
 
     rng = chk.rng("isclose")
     ic = []
